@@ -196,8 +196,11 @@ def run_case(exe, shim, helper, case, scratch, hard_timeout=None):
             "rc": rc, "wall": round(time.time() - t0, 2)}
 
 
-REPORT = {"hang": ": connect: timed out", "mute": ": read: protocol failure: timed out",
-          "refuse": ": connect: Connection refused", "talkhang": ": command timeout"}
+# what the property asks for is a report under the host's own name; the texts are xrcmd.c's / dsh.c's.  A refusing
+# host is reported as refused when its retries end before the connect timeout, and as timed out when the
+# connect timeout ends the retries (repaired xrcmd.c: an interrupted back-off sleep is the expired timeout)
+REPORT = {"hang": (": connect: timed out",), "mute": (": read: protocol failure: timed out",),
+          "refuse": (": connect: Connection refused", ": connect: timed out"), "talkhang": (": command timeout",)}
 
 
 def judge(case, r, peer, slack):
@@ -224,8 +227,8 @@ def judge(case, r, peer, slack):
         else:
             if kd == "talkhang" and "%s: first-%s" % (a, a) not in outl:
                 fun.append(("real:output-lost", "%s: the line sent before the hang was not relayed" % a))
-            want = a + REPORT[kd]
-            if not any(l.startswith("pdsh@") and l.endswith(want) for l in errl):
+            want = " | ".join(a + w for w in REPORT[kd])
+            if not any(l.startswith("pdsh@") and any(l.endswith(a + w) for w in REPORT[kd]) for l in errl):
                 fun.append(("real:not-reported:" + kd, "%s (%s): no line `...%s` on stderr; stderr was %r" %
                             (a, kd, want, r["stderr"][-400:])))
     bound = expected_wall(case)
